@@ -514,8 +514,14 @@ def validate_block_in_coinstate(block: Block, coinstate: CoinState) -> None:
             if block.hash() != computer(KNOWN_HASHES[block.height]):
                 raise ValidationError("No forks allowed before block %s" % MAX_KNOWN_HASH_HEIGHT)
 
-        # all in-coinstate validation is skipped for such blocks; this may lead to invalid blocks being accepted in your
-        # local coinstate, but never beyond one of the checkpoints from KNOWN_HASHES
+        # a block that is not the direct successor (in height) of its parent could step OVER a checkpointed height
+        # and so avoid the comparison above
+        previous_block = coinstate.block_by_hash.get(block.header.summary.previous_block_hash)
+        if previous_block is not None and block.height != previous_block.height + 1:
+            raise ValidationError("Block's height is not its parent's height + 1")
+
+        # all other in-coinstate validation is skipped for such blocks; this may lead to invalid blocks being accepted
+        # in your local coinstate, but never beyond one of the checkpoints from KNOWN_HASHES
         return
 
     validate_block_summary_in_coinstate(block.header.summary, coinstate)
